@@ -243,6 +243,10 @@ func expectedOutput(app string, in []byte) []byte {
 
 var frameLenRe = regexp.MustCompile(`Frame length (\d+) bytes:`)
 
+// hangs counts the cases in which the entry point did not return in time: after three of them the remaining cases are
+// not run (each would wait its full time-out to say the same thing, and the whole run would outlast every limit)
+var hangs int
+
 func TestVerifApps(t *testing.T) {
 	casesPath, outPath := os.Getenv("VERIF_CASES"), os.Getenv("VERIF_OUT")
 	if casesPath == "" || outPath == "" {
@@ -267,6 +271,9 @@ func TestVerifApps(t *testing.T) {
 			continue
 		}
 		in := toBytes(c.In)
+		if hangs >= 3 {
+			break
+		}
 		switch c.Mode {
 		case "c11":
 			if c.Display || c.Record {
@@ -347,6 +354,7 @@ func TestVerifApps(t *testing.T) {
 			case refRet = <-d:
 			case <-time.After(30 * time.Second):
 				refRet = "timeout"
+				hangs++
 			}
 			settle(ref, 300*time.Millisecond, 5*time.Second)
 			refBytes, refWrites := ref.snapshot()
@@ -398,6 +406,7 @@ func TestVerifApps(t *testing.T) {
 				case <-d:
 					returned = true
 				case <-time.After(20 * time.Second):
+					hangs++
 				}
 				atRet, _ = g.snapshot()
 			}
@@ -429,6 +438,7 @@ func TestVerifApps(t *testing.T) {
 			case ret = <-d:
 			case <-time.After(60 * time.Second):
 				ret = "timeout"
+				hangs++
 			}
 			settle(w, 300*time.Millisecond, 5*time.Second)
 			time.Sleep(50 * time.Millisecond)
